@@ -55,6 +55,25 @@ def qstr(s: str) -> str:
     return '"' + s.replace('"', '""') + '"%string'
 
 
+def ensure_makefile():
+    """_CoqProject = '-Q . CR' + the file lists of coq/proj/*.txt (one fragment per property, so that
+    properties can be developed independently); Makefile.coq regenerated when the list changes."""
+    import glob
+    files = []
+    for frag in sorted(glob.glob(os.path.join(COQ, "proj", "*.txt"))):
+        for ln in open(frag).read().split():
+            if ln and ln not in files and os.path.exists(os.path.join(COQ, ln)):
+                files.append(ln)
+    text = "-Q . CR\n" + "\n".join(files) + "\n"
+    cp = os.path.join(COQ, "_CoqProject")
+    mk = os.path.join(COQ, "Makefile.coq")
+    if not os.path.exists(cp) or open(cp).read() != text or not os.path.exists(mk):
+        with open(cp, "w") as f:
+            f.write(text)
+        subprocess.run(["coq_makefile", "-f", "_CoqProject", "-o", "Makefile.coq"], cwd=COQ, check=True,
+                       stdout=subprocess.DEVNULL)
+
+
 class Findings:
     """known_findings.json: {"findings":[{"property","signature","what"}], "fixed":[...]}.
     A finding is matched by exact signature string (class / call site / input shape)."""
@@ -116,11 +135,7 @@ class Ctx:
         return f
 
     def ensure_makefile(self):
-        mk = os.path.join(COQ, "Makefile.coq")
-        cp = os.path.join(COQ, "_CoqProject")
-        if not os.path.exists(mk) or os.path.getmtime(mk) < os.path.getmtime(cp):
-            subprocess.run(["coq_makefile", "-f", "_CoqProject", "-o", "Makefile.coq"], cwd=COQ, check=True,
-                           stdout=subprocess.DEVNULL)
+        ensure_makefile()
 
     def build_props(self, extra_targets=()):
         """(re)build Props/<prop>.vo with everything it depends on; record obligations.
